@@ -989,6 +989,19 @@ func EagerPairs(s *Scenario) []string {
 	return out
 }
 
+// WantsSchedulerReport: the scenario gives the scheduler's ticker a budget and the directive has a
+// live user emitter, so some schedule must deliver a scheduler state report to it (C18/C19: an emitter
+// receives in any combination what it would receive alone).
+func WantsSchedulerReport(s *Scenario) bool {
+	if s.prog == nil || s.Ticks <= 0 || s.Instances > 1 || s.Cancel == "pre" {
+		return false
+	}
+	if s.prog.Flow != nil {
+		return s.prog.Flow.Emitters != ""
+	}
+	return s.prog.Par != nil && s.prog.Par.Emitters != ""
+}
+
 // EagerWitnessed returns the pairs of EagerPairs for which this execution
 // shows the predicate starting without happening-after the provider's return.
 func EagerWitnessed(r *Run, pairs []string) []string {
